@@ -181,30 +181,53 @@ def r1(ctx):
         if good:
             body = max(loops, key=lambda l: len(l[1]))[1]
             a = [fa.arg_origin(s, 1) for s in ups]
-            # the pieces fed after the node hash must be the whole encoded buffer, in order — however
-            # it is cut: [..k] + [k..], split_at(k), chunks(n) fed in a loop, or the buffer itself
-            buf, cut = None, "?"
-            p = [strip(x) for x in a[2:]]
-            def idx(t_, kind):
-                if t_[0] == "call" and t_[2].split("::")[-1] == "index" and len(t_[3]) == 2 and is_agg(t_[3][1]) and t_[3][1][1].split("::")[-1] == kind:
-                    return t_[3][0], ev(ctx, t_[3][1][3][0][1])
-                return None, None
-            if len(p) == 2:
-                b1, k1 = idx(p[0], "RangeTo")
-                b2, k2 = idx(p[1], "RangeFrom")
-                if b1 is not None and b2 is not None and term_sig(b1) == term_sig(b2) and k1 == k2 and k1 is not None:
-                    buf, cut = b1, "[..%d] + [%d..]" % (k1, k2)
-                elif p[0][0] == "field" and p[1][0] == "field" and (p[0][2], p[1][2]) == ("0", "1") and p[0][1] == p[1][1] and strip(p[0][1])[0] == "call" and strip(p[0][1])[2].split("::")[-1] == "split_at":
-                    buf, cut = strip(p[0][1])[3][0], "split_at(%s)" % term_str(strip(p[0][1])[3][1])
-            elif len(p) == 1:
-                q = p[0]
+            # the bytes fed after the node hash, in order, however the encoded buffer(s) are cut:
+            # [..k] + [k..], split_at(k), chunks(n) fed in a loop, one buffer per value, or a buffer whole
+            def fed(q, u_site):
+                """[(class, source sig)] of the bytes a piece contributes, or None"""
+                def seq_of(buf_):
+                    r_, _ = closure_seq(ctx, buf_, fa)
+                    return r_
+                def size(c_):
+                    return c_[0][1] if c_[0][0] in ("fixed", "fixedle") else None
+                def cutseq(buf_, lo, hi):
+                    sq = seq_of(buf_)
+                    if sq is None or any(size(c_) is None for c_ in sq):
+                        return None
+                    out_, off = [], 0
+                    for c_ in sq:
+                        n_ = size(c_)
+                        if off >= lo and (hi is None or off + n_ <= hi):
+                            out_.append(c_)
+                        elif not (off + n_ <= lo or (hi is not None and off >= hi)):
+                            return None   # the cut goes through a value
+                        off += n_
+                    return out_
+                if q[0] == "call" and q[2].split("::")[-1] == "index" and len(q[3]) == 2 and is_agg(q[3][1]):
+                    kind = q[3][1][1].split("::")[-1]
+                    d_ = dict(q[3][1][3])
+                    if kind == "RangeTo":
+                        return cutseq(q[3][0], 0, ev(ctx, d_.get("end")))
+                    if kind == "RangeFrom":
+                        return cutseq(q[3][0], ev(ctx, d_.get("start")), None)
+                    if kind == "Range":
+                        return cutseq(q[3][0], ev(ctx, d_.get("start")), ev(ctx, d_.get("end")))
+                if q[0] == "field" and q[2] in ("0", "1") and strip(q[1])[0] == "call" and strip(q[1])[2].split("::")[-1] == "split_at":
+                    sp = strip(q[1])
+                    k_ = ev(ctx, sp[3][1])
+                    return cutseq(sp[3][0], 0, k_) if q[2] == "0" else cutseq(sp[3][0], k_, None)
                 if q[0] == "call" and q[2].split("::")[-1] == "next" and q[3] and strip(q[3][0])[0] == "call" and strip(q[3][0])[2].split("::")[-1] in ("chunks", "chunks_exact"):
                     ch = strip(q[3][0])
-                    if every_element_reaches(fa, q[1], ups[2]):
-                        buf, cut = ch[3][0], "every chunk of chunks(%s)" % term_str(ch[3][1])
-                else:
-                    buf, cut = q, "whole buffer"
-            cs, srcs = closure_seq(ctx, buf, fa) if buf is not None else (None, None)
+                    if every_element_reaches(fa, q[1], u_site):
+                        return seq_of(ch[3][0])
+                    return None
+                return seq_of(q)
+            cs = []
+            for q, u_site in zip([strip(x) for x in a[2:]], ups[2:]):
+                f_ = fed(q, u_site)
+                cs = None if (cs is None or f_ is None) else cs + f_
+            cut = "%d piece(s)" % len(a[2:])
+            p = a[2:]
             hs = strip(a[1])
             node = term_sig(hs[3][0]) if hs[0] == "call" and hs[3] else "?"
             good = (strip(a[0]) == ("const", "crypto::hash::ROOT_TYPE") and ups[0] not in body and all(u in body for u in ups[1:])
